@@ -12,7 +12,7 @@ import time as _t
 import traceback
 
 from .prng import mix
-from .seams import HarnessError
+from .seams import HarnessError, LIB_ERRORS
 
 VERIF = os.path.dirname(os.path.dirname(os.path.abspath(__file__)))
 PROPS = ['C14', 'C15', 'C16', 'C17', 'C18', 'C19', 'C20']
@@ -138,7 +138,7 @@ def real(what, fn, *args, **kw):
         return fn(*args, **kw)
     except (_Timeout, HarnessError):
         raise
-    except Exception as e:
+    except LIB_ERRORS as e:
         raise RealCodeRaised(what, e)
 
 
@@ -147,10 +147,10 @@ def _alarm(signum, frame):
 
 
 def execute(mod, plan, want_trace=False):
-    """Execute one plan.  Returns the result dict.  ISOLATE modules run in a
-    forked child so that process-global registries never leak between runs."""
+    """Execute one plan in a process of its own (ISOLATE modules; all of them
+    are): nothing process-global survives from one execution to the next."""
     if getattr(mod, 'ISOLATE', False):
-        return _execute_forked(mod, plan, want_trace)
+        return execute_seq(mod, [plan], want_trace)[0]
     return _execute_here(mod, plan, want_trace)
 
 
@@ -177,19 +177,33 @@ def _execute_here(mod, plan, want_trace):
         signal.signal(signal.SIGALRM, old)
 
 
-def _execute_forked(mod, plan, want_trace):
+def execute_seq(mod, plans, want_trace=False, stop_sigs=None):
+    """Execute a sequence of plans one after the other in ONE freshly forked
+    process and return their results in order.  This is the unit of isolation
+    and of replay: a batch of runs shares a process (fork is expensive on this
+    box), so a violation that needs state leaked by an earlier run of its batch
+    is replayed as that sequence.  With `stop_sigs` (a set of known-finding
+    signatures) the child stops after the first run that has a violation
+    outside that set."""
     r, w = os.pipe()
     pid = os.fork()
     if pid == 0:
         code = 0
         try:
             os.close(r)
+            out = []
             try:
-                res = ('ok', _execute_here(mod, plan, want_trace))
+                for plan in plans:
+                    res = _execute_here(mod, plan, want_trace)
+                    out.append(res)
+                    if stop_sigs is not None and any(
+                            v['signature'] not in stop_sigs for v in res['violations']):
+                        break
+                msg = ('ok', out)
             except BaseException as e:      # noqa
-                res = ('err', ''.join(traceback.format_exception(e)))
+                msg = ('err', 'after %d runs: %s' % (len(out), ''.join(traceback.format_exception(e))))
             with os.fdopen(w, 'wb') as f:
-                pickle.dump(res, f)
+                pickle.dump(msg, f)
         except BaseException:               # noqa
             code = 1
         finally:
@@ -254,41 +268,50 @@ def worker(args):
         'evals_fault_free': 0, 'trace_events': 0,
     }
     idx = start
+    batch = max(1, int(getattr(mod, 'BATCH', 1)))
     try:
-        while idx < total:
+        while idx < total and agg['violation'] is None:
             if _t.monotonic() > deadline:
                 agg['budget_hit'] = True
                 break
-            plan = mod.gen_plan(run_seed(seed, pid, idx), idx, tier)
-            res = execute(mod, plan)
-            agg['runs'] += 1
-            agg['evals'] += res['evals']
-            agg['dont_care'] += res['dont_care']
-            agg['cells'].update(res['cells'])
-            _merge_counts(agg['probes'], res['probes'])
-            _merge_counts(agg['faults'], res['faults'])
-            agg['schedules'].add(res['schedule'])
-            agg['aux_auth_raised'] += res['aux_auth_raised']
-            agg['sim_us'] += res['sim_us']
-            agg['trace_events'] += res['trace_len']
-            if res['fault_free']:
-                agg['fault_free_runs'] += 1
-                agg['evals_fault_free'] += res['evals']
-            if idx % 257 < 1 or idx < 16:
-                agg['digests'][idx] = res['digest']
-            if res['sample'] is not None and len(agg['samples']) < 2:
-                agg['samples'].append(res['sample'])
-            bad = None
-            for v in res['violations']:
-                if v['signature'] in known_sigs:
-                    agg['known_hits'][v['signature']] = \
-                        agg['known_hits'].get(v['signature'], 0) + 1
-                elif bad is None:
-                    bad = v
-            if bad is not None:
-                agg['violation'] = {'idx': idx, 'plan': plan, 'violation': bad}
-                break
-            idx += stride
+            idxs = []
+            while len(idxs) < batch and idx < total:
+                idxs.append(idx)
+                idx += stride
+            plans = [mod.gen_plan(run_seed(seed, pid, i), i, tier) for i in idxs]
+            results = execute_seq(mod, plans, stop_sigs=set(known_sigs))
+            for k, res in enumerate(results):
+                i = idxs[k]
+                agg['runs'] += 1
+                agg['evals'] += res['evals']
+                agg['dont_care'] += res['dont_care']
+                agg['cells'].update(res['cells'])
+                _merge_counts(agg['probes'], res['probes'])
+                _merge_counts(agg['faults'], res['faults'])
+                agg['schedules'].add(res['schedule'])
+                agg['aux_auth_raised'] += res['aux_auth_raised']
+                agg['sim_us'] += res['sim_us']
+                agg['trace_events'] += res['trace_len']
+                if res['fault_free']:
+                    agg['fault_free_runs'] += 1
+                    agg['evals_fault_free'] += res['evals']
+                if k == 0 and (len(agg['digests']) < 40 or i % 257 == 0):
+                    # only the first run of a batch starts in a fresh process:
+                    # that is what the determinism self-check re-executes
+                    agg['digests'][i] = res['digest']
+                if res['sample'] is not None and len(agg['samples']) < 2:
+                    agg['samples'].append(res['sample'])
+                bad = None
+                for v in res['violations']:
+                    if v['signature'] in known_sigs:
+                        agg['known_hits'][v['signature']] = \
+                            agg['known_hits'].get(v['signature'], 0) + 1
+                    elif bad is None:
+                        bad = v
+                if bad is not None:
+                    agg['violation'] = {'idx': i, 'plan': plans[k], 'violation': bad,
+                                        'prefix': plans[:k]}
+                    break
     except HarnessError as e:
         agg['harness_error'] = 'idx=%d: %s' % (idx, e)
     except BaseException as e:      # noqa
@@ -301,24 +324,51 @@ def worker(args):
 
 # ---------------------------------------------------------------- minimise
 
-def reproduces(mod, plan, sig):
+def reproduces(mod, plan, sig, prefix=()):
+    """does the plan, executed in a fresh process after the plans of `prefix`,
+    show the signature?"""
     try:
-        res = execute(mod, plan)
+        res = execute_seq(mod, list(prefix) + [plan])[-1]
     except HarnessError:
         return False
     return any(v['signature'] == sig for v in res['violations'])
 
 
-def minimise(mod, plan, sig, max_exec=300, log=None):
+def minimise_prefix(mod, prefix, plan, sig, max_exec=60):
+    """the violation needs state left behind by earlier runs of its batch:
+    find a small subsequence of them that still provokes it"""
+    budget = [max_exec]
+    best = list(prefix)
+
+    def fails(pre):
+        if budget[0] <= 0:
+            return False
+        budget[0] -= 1
+        return reproduces(mod, plan, sig, pre)
+    for i in range(len(best)):          # a single earlier run is the common case
+        if fails([best[i]]):
+            return [best[i]]
+    i = 0
+    while i < len(best) and budget[0] > 0:
+        cand = best[:i] + best[i + 1:]
+        if fails(cand):
+            best = cand
+        else:
+            i += 1
+    return best
+
+
+def minimise(mod, plan, sig, max_exec=300, log=None, prefix=()):
     """Bounded structural reducer.  A candidate is kept only if the same
-    signature recurs."""
+    signature recurs (after the plans of `prefix` in the same process, if the
+    violation is history dependent)."""
     budget = [max_exec]
 
     def fails(p):
         if budget[0] <= 0:
             return False
         budget[0] -= 1
-        return reproduces(mod, p, sig)
+        return reproduces(mod, p, sig, prefix)
 
     best = copy.deepcopy(plan)
     # 1. drop the tail after the violating step, if steps are independent
@@ -378,7 +428,7 @@ def minimise(mod, plan, sig, max_exec=300, log=None):
     return best
 
 
-def write_replay(pid, plan, violation, res_digest, tag=None):
+def write_replay(pid, plan, violation, res_digest, tag=None, prefix=()):
     os.makedirs(os.path.join(VERIF, 'replays'), exist_ok=True)
     name = '%s-%s.json' % (pid, tag or plan.get('run_seed', 'x'))
     path = os.path.join(VERIF, 'replays', name)
@@ -386,6 +436,9 @@ def write_replay(pid, plan, violation, res_digest, tag=None):
            'invariant': violation['invariant'],
            'expected': violation.get('detail', {}),
            'trace_digest': res_digest, 'plan': plan}
+    if prefix:
+        # history dependent: these plans are executed first, in the same process
+        doc['earlier_plans_in_same_process'] = list(prefix)
     with open(path, 'w') as f:
         json.dump(doc, f, indent=1, sort_keys=True, default=_jd)
         f.write('\n')
@@ -396,6 +449,7 @@ def replay(pid, path):
     """Re-execute a replay file.  Returns (reproduced, result, doc)."""
     doc = json.load(open(path))
     mod = load(doc.get('property', pid))
-    res = execute(mod, doc['plan'], want_trace=True)
+    pre = doc.get('earlier_plans_in_same_process', [])
+    res = execute_seq(mod, list(pre) + [doc['plan']], want_trace=True)[-1]
     hit = [v for v in res['violations'] if v['signature'] == doc['signature']]
     return bool(hit), res, doc
